@@ -249,7 +249,12 @@ var hostile = []string{
 // Word draws one word: printable ASCII without '"' and without spaces, usually at most 30 characters.
 func Word(t *rapid.T, name string) string {
 	var w string
-	switch rapid.IntRange(0, 5).Draw(t, name+"_kind") {
+	switch rapid.IntRange(0, 6).Draw(t, name+"_kind") {
+	case 6:
+		w = rapid.SampledFrom(vk.Placeholders).Draw(t, name+"_placeholder") // ".", "-", "unknown", "NaN", "bp" ...: words like any other
+		if w == "" {
+			w = "."
+		}
 	case 0:
 		w = rapid.SampledFrom(hostile).Draw(t, name+"_hostile")
 	case 1:
@@ -270,6 +275,14 @@ func Word(t *rapid.T, name string) string {
 
 // Words draws lo..hi words; long lists force wrapping onto continuation lines.
 func Words(t *rapid.T, name string, lo, hi int) []string {
+	if lo <= 1 && rapid.IntRange(0, 11).Draw(t, name+"_only_a_placeholder") == 0 {
+		// the whole field is one of the spellings of "nothing here" (KEYWORDS ".", a title "-", an author "unknown")
+		w := rapid.SampledFrom(vk.Placeholders).Draw(t, name+"_placeholder_word")
+		if w == "" {
+			w = "."
+		}
+		return []string{w}
+	}
 	n := lo
 	switch rapid.IntRange(0, 3).Draw(t, name+"_size") {
 	case 0:
@@ -327,6 +340,9 @@ func drawQualifier(t *rapid.T, name string, used map[string]bool) Qualifier {
 func Draw(t *rapid.T, name string, maxSeq, maxFeatures int) Record {
 	r := Record{}
 	r.Name = rapid.StringMatching(`[a-z][a-z0-9_.]{1,15}`).Draw(t, name+"_locus")
+	if rapid.IntRange(0, 14).Draw(t, name+"_locus_placeholder") == 0 {
+		r.Name = rapid.SampledFrom(vk.Placeholders).Draw(t, name+"_locus_word")
+	}
 	r.Molecule = rapid.SampledFrom([]string{"DNA", "DNA", "mRNA", "tRNA", "rRNA"}).Draw(t, name+"_molecule")
 	r.Circular = rapid.Bool().Draw(t, name+"_circular")
 	r.Division = rapid.SampledFrom(Divisions).Draw(t, name+"_division")
